@@ -32,8 +32,8 @@ const (
 func init() {
 	register(Property{ID: "C01", Level: "other", Run: runC01,
 		Technique: "static analysis: must-pass-through path conditions on the SSA control-flow graph (go/ssa), guarded-by lock rule",
-		Text: "Decides, for every path through authenticateWithUser / matchesPermission / Credential.Check / authenticateInternal / Authenticate, that an admitting return carries the IP, permission and credential tests with exactly the stated operands, that a rejecting return follows a failed test, that AskCredentials is the documented conjunction and that InternalUsers is accessed under the manager mutex. This is the shape of the decision procedure on all paths (what tests sample); it is not a proof of the iff over values because regexp, CIDR and hash arithmetic are library code.",
-		Note: "trusted: go/types+go/ssa construction; regexp, net, crypto/subtle, argon2 semantics; rules are matched on resolved callees and canonical operand paths"})
+		Text:      "Decides, for every path through authenticateWithUser / matchesPermission / Credential.Check / authenticateInternal / Authenticate, that an admitting return carries the IP, permission and credential tests with exactly the stated operands, that a rejecting return follows a failed test, that AskCredentials is the documented conjunction and that InternalUsers is accessed under the manager mutex. This is the shape of the decision procedure on all paths (what tests sample); it is not a proof of the iff over values because regexp, CIDR and hash arithmetic are library code.",
+		Note:      "trusted: go/types+go/ssa construction; regexp, net, crypto/subtle, argon2 semantics; rules are matched on resolved callees and canonical operand paths"})
 	addMutants(
 		Mutant{"C01", "drop-ip-test", "internal/auth/manager.go",
 			"if len(u.IPs) != 0 && !u.IPs.Contains(req.IP) {\n\t\treturn false\n\t}\n", "", "C01.with_user.ip"},
@@ -104,10 +104,10 @@ func runC01(c *Ctx) {
 	ck := c.fn(p, "internal/conf", "Credential", "Check")
 	if ck != nil {
 		accepted := map[string]string{
-			"(crypto/subtle.ConstantTimeCompare($0[7:], conf.sha256Base64($1)) == 1)":                          "sha256",
-			"phi((github.com/matthewhartstonge/argon2.VerifyEncoded($1, $0[7:])#1 == nil) | false)":           "argon2",
-			"(crypto/subtle.ConstantTimeCompare($0, $1) == 1)":                                                 "plain",
-			"true":                                                                                             "empty credential",
+			"(crypto/subtle.ConstantTimeCompare($0[7:], conf.sha256Base64($1)) == 1)":               "sha256",
+			"phi((github.com/matthewhartstonge/argon2.VerifyEncoded($1, $0[7:])#1 == nil) | false)": "argon2",
+			"(crypto/subtle.ConstantTimeCompare($0, $1) == 1)":                                      "plain",
+			"true": "empty credential",
 		}
 		seen := map[string]bool{}
 		for _, d := range retDescs(ck, 0) {
